@@ -76,7 +76,7 @@ type CPTVFileRecorder struct {
 }
 
 func (cfr *CPTVFileRecorder) SetAsConstantRecorder() error {
-	folder := path.Join(cfr.outputDir, "/constant-recordings")
+	folder := path.Join(cfr.outputDir, constantRecordingsDir)
 	cfr.outputDir = folder
 	cfr.constantRecorder = true
 	return os.Mkdir(folder, 0755)
@@ -174,11 +174,18 @@ func recordingFinalName(filename string) string {
 	return reTempName.ReplaceAllString(filename, `$1`)
 }
 
+const constantRecordingsDir = "constant-recordings"
+
+// deleteTempFiles removes what an interrupted recording leaves behind: the
+// "<name>.cptv.temp" file and the CPTV writer's "<name>.cptv.temp.tmp" scratch
+// file, in the output directory and in the constant recorder's folder.
 func deleteTempFiles(directory string) error {
-	matches, _ := filepath.Glob(filepath.Join(directory, "*."+cptvTempExt))
-	for _, filename := range matches {
-		if err := os.Remove(filename); err != nil {
-			return err
+	for _, dir := range []string{directory, path.Join(directory, constantRecordingsDir)} {
+		matches, _ := filepath.Glob(filepath.Join(dir, "*."+cptvTempExt+"*"))
+		for _, filename := range matches {
+			if err := os.Remove(filename); err != nil {
+				return err
+			}
 		}
 	}
 	return nil
